@@ -7,6 +7,7 @@ package main
 // invariant, frame and lock clause becomes a named obligation.
 
 import (
+	"os"
 	"fmt"
 	"go/constant"
 	"go/token"
@@ -63,6 +64,7 @@ type gen struct {
 	vals     map[ssa.Value]*Val
 	fnNamed  map[int]bool
 	hypForalls []hypForall
+	cellOf     map[token.Pos]*ssa.Alloc // named locals that live in a cell, by declaration position
 	// recursive spec functions (see evalRec)
 	recName     map[string]string
 	recUnfolded map[int]bool
@@ -1194,6 +1196,12 @@ func (g *gen) cutLoop(li *loopInfo, spec *LoopSpec) {
 		}
 	}
 	// ---- havoc
+	if os.Getenv("HVC_DEBUG_LOOPS") != "" {
+		for k := range w {
+			fmt.Fprintf(os.Stderr, "loop %s writes %s\n", g.fname, k.String())
+		}
+		fmt.Fprintf(os.Stderr, "loop %s wroteAll=%v\n", g.fname, wAll)
+	}
 	st := &State{reach: st0.reach, wm: st0.wm}
 	if wAll {
 		nw := Fresh("wm", SInt)
